@@ -495,6 +495,19 @@ theorem step_pres {s : State} (op : Op) (hop : OpOK G K s op) (hs : Q s) : Q (st
     split
     · exact iaddLoop_pres C hop (C.field _ _ _ hs)
     · exact hs
+  | iaddSelf => exact iaddLoop_pres C (C.terms s hs) hs
+  | isubSelf => exact isubLoop_pres C (C.terms s hs) hs
+  | imulSelf => exact imulD_pres C (C.terms s hs) hs
+  | updateSelf => exact updateM_pres C _ _ _ _ (C.terms s hs) hs
+  | isubCopy =>
+    simp only [step]
+    have h1 := copy_pres C hs
+    cases hc : Book.copy fx s with
+    | mk c e =>
+      rw [hc] at h1
+      cases e with
+      | none => exact isubLoop_pres C (C.terms c h1) hs
+      | some e => exact hs
 
 end principle
 
@@ -948,6 +961,7 @@ def Op.isDictMul : Op → Bool
   | .imulD _ => true
   | .ipow _ => true
   | .bin a => a.isDictMul
+  | .imulSelf => true
   | _ => false
 
 def Op.isRound : Op → Bool
@@ -1167,6 +1181,34 @@ theorem step_anc {fx : Fix} (s : State) (op : Op) (hfix : FixOK fx op) :
   | remap =>
     simp only [step]
     split <;> rfl
+  | iaddSelf => exact iaddLoop_anc fx s _
+  | isubSelf => exact isubLoop_anc fx s _
+  | imulSelf =>
+    rcases hmul with h | h
+    · exact imulD_anc h s _
+    · simp [Op.isDictMul] at h
+  | updateSelf =>
+    simp only [step, updateM, ancAfter]
+    have h1 := loop_anc (f := fun st kv => setitem fx st kv.1 kv.2) (fun _ _ _ h => setitem_anc h) s.terms s
+    cases hc : loop (fun st kv => setitem fx st kv.1 kv.2) s s.terms with
+    | mk t e =>
+      rw [hc] at h1
+      have h1' : t.ancilla = s.ancilla := h1
+      cases e with
+      | none =>
+        simp only
+        split
+        · simp only [h1']
+          split <;> simp
+        · exact h1
+      | some e => exact h1
+  | isubCopy =>
+    simp only [step]
+    cases hc : Book.copy fx s with
+    | mk c e =>
+      cases e with
+      | none => exact isubLoop_anc fx s _
+      | some e => rfl
 
 /-- what an edit must satisfy for I4: user keys carry no label of the ancilla form beyond the counter, constraints
 are `ConsFresh`, a constructor is that of the model's own class, and `update(G)` either gets a model of the own class
@@ -1232,6 +1274,11 @@ theorem step_I4 {fx : Fix} (s : State) (op : Op) (hfix : FixOK fx op)
   | bin a => exact step_pres (closed_AncB fx _) _ hop hs
   | rsubC c => exact step_pres (closed_AncB fx _) _ hop hs
   | remap => exact step_pres (closed_AncB fx _) _ hop hs
+  | iaddSelf => exact step_pres (closed_AncB fx _) _ hop hs
+  | isubSelf => exact step_pres (closed_AncB fx _) _ hop hs
+  | imulSelf => exact step_pres (closed_AncB fx _) _ hop hs
+  | updateSelf => exact step_pres (closed_AncB fx _) _ hop hs
+  | isubCopy => exact step_pres (closed_AncB fx _) _ hop hs
 
 /-! ## I0: the terms are stored canonically (C05), for every history -/
 
@@ -1504,6 +1551,11 @@ theorem opAnc_of_user {fx : Fix} (hd : fx.d10 = true) (s : State) (op : Op) (hu 
   | subs => trivial
   | rsubC c => trivial
   | remap => trivial
+  | iaddSelf => trivial
+  | isubSelf => trivial
+  | imulSelf => trivial
+  | updateSelf => trivial
+  | isubCopy => trivial
 
 /-- the class of the model never changes along user edits (a constructor of the own class is a copy) -/
 theorem closed_kind (fx : Fix) (κ : Kind) : Closed fx (fun s => s.kind = κ) (fun _ => True) (fun κ' => κ' = κ) where
